@@ -2636,16 +2636,16 @@ Proof.
 Qed.
 
 (* ------------------------------------------------------------------ op-assign: drop_lhs, call, assign back *)
-Lemma m_opassign_ok p f : noslice p = true -> bfrag f = true ->
+Lemma m_opassign_old_ok p f : noslice p = true -> bfrag f = true ->
   forall h cur t old told w tw G h' cur' ok,
   Inv h ((handles cur ++ handles old ++ handles w) ++ G) ->
-  repr h cur t -> repr h old told -> repr h w tw -> v_get t p = Some told ->
+  repr h cur t -> repr h old told -> repr h w tw ->
   m_opassign p f h cur old w = (h', cur', ok) ->
-  exists t', v_opassign p f tw t = (t', ok) /\ repr h' cur' t' /\
+  exists t', v_opassign_old p f told tw t = (t', ok) /\ repr h' cur' t' /\
              Step h (handles cur ++ handles old ++ handles w) G h' (handles cur').
 Proof.
-  intros NS BF h cur t old told w tw G h' cur' ok I Hc Ho Hw Hg E.
-  unfold m_opassign in E. unfold v_opassign, v_opassign_old. rewrite Hg.
+  intros NS BF h cur t old told w tw G h' cur' ok I Hc Ho Hw E.
+  unfold m_opassign in E. unfold v_opassign_old.
   destruct (m_set true p None h cur) as [[h1 cur1] ok1] eqn:E1.
   assert (I0 : Inv h ((handles cur ++ handles_opt None) ++ (handles old ++ handles w) ++ G)).
   { simpl. eapply Inv_equiv; [|exact I]. occ_tac. }
@@ -2697,6 +2697,18 @@ Proof.
       apply Step_frame in S2'. simpl in S2'.
       eapply Step_trans; [exact S1'|].
       eapply Step_equiv; [| |exact S2']. apply in_occ_equiv; occ_tac. occ_tac.
+Qed.
+
+Lemma m_opassign_ok p f : noslice p = true -> bfrag f = true ->
+  forall h cur t old told w tw G h' cur' ok,
+  Inv h ((handles cur ++ handles old ++ handles w) ++ G) ->
+  repr h cur t -> repr h old told -> repr h w tw -> v_get t p = Some told ->
+  m_opassign p f h cur old w = (h', cur', ok) ->
+  exists t', v_opassign p f tw t = (t', ok) /\ repr h' cur' t' /\
+             Step h (handles cur ++ handles old ++ handles w) G h' (handles cur').
+Proof.
+  intros NS BF h cur t old told w tw G h' cur' ok I Hc Ho Hw Hg E.
+  unfold v_opassign. rewrite Hg. eapply m_opassign_old_ok; eauto.
 Qed.
 
 (* ------------------------------------------------------------------ a mutation form on one owned value (a closure parameter) *)
@@ -3320,6 +3332,120 @@ Proof.
       * apply repr_list_as_inst. auto.
 Qed.
 
+(* ------------------------------------------------------------------ op-assign whose right-hand side mutates: x[p] f= [pop y[..]] *)
+Lemma keep_roots G h rs sg hh :
+  repr_list h rs sg -> Step h (handles_list rs) G hh (handles_list rs) ->
+  (forall w t, incl (handles w) (handles_list rs ++ G) -> repr h w t -> repr hh w t) ->
+  Inv hh (handles_list rs ++ G) /\ repr_list hh rs sg /\ (forall u t, incl (handles u) G -> repr h u t -> repr hh u t).
+Proof.
+  intros Hrs S K. split; [apply S|]. split.
+  - apply repr_list_as_inst. apply K. rewrite handles_inst. apply incl_appl, incl_refl. apply repr_list_as_inst; auto.
+  - intros u t Iu Hu. apply K; auto. apply incl_appr. auto.
+Qed.
+
+Lemma incl_app_mid' (a b g : list loc) : incl (a ++ g) (a ++ b ++ g).
+Proof. intros x Hx. apply in_app_or in Hx. apply in_or_app. destruct Hx; [left; auto | right; apply in_or_app; right; auto]. Qed.
+
+Opaque alloc.
+Lemma exec_opmod_g x p f wrap y m : noslice p = true -> bfrag f = true -> is_modlop m = true ->
+  forall h rs sg st' ok G,
+  Inv h (handles_list rs ++ G) -> repr_list h rs sg ->
+  m_exec_s (mkst h rs) (SOpMod x p f wrap y m) = (st', ok) ->
+  exists sg', exec_s sg (SOpMod x p f wrap y m) = (sg', ok) /\
+    Inv (mheap st') (handles_list (roots st') ++ G) /\ Sim st' sg' /\
+    (forall u t, incl (handles u) G -> repr h u t -> repr (mheap st') u t).
+Proof.
+  intros NS BF HM h rs sg st' ok G I Hrs E. simpl in E. simpl.
+  destruct (nth_error rs x) as [cur|] eqn:Ex.
+  2: { inversion E; subst. rewrite (repr_list_nth_none _ _ _ _ Hrs Ex). eexists; split; [reflexivity|].
+       split; [exact I|]. split; [exact Hrs|]. auto. }
+  destruct (repr_list_nth _ _ _ _ _ Hrs Ex) as [tcur [Htc Hcur]]. rewrite Htc.
+  assert (Icur : incl (handles cur) (handles_list rs ++ handles_heap h)) by (apply incl_appl; eapply handles_list_nth; eauto).
+  destruct (m_read h cur p) as [h1 [old|]] eqn:ER.
+  2: { destruct (m_read_ok h cur tcur p (handles_list rs) G h1 None I Icur Hcur ER) as [[Hg S1] K1].
+       inversion E; subst. rewrite Hg. eexists; split; [reflexivity|]. apply keep_roots; auto. }
+  destruct (m_read_ok h cur tcur p (handles_list rs) G h1 (Some old) I Icur Hcur ER) as [[told [Hg [Hold S1]]] K1].
+  rewrite Hg.
+  assert (Hrs1 : repr_list h1 rs sg).
+  { apply repr_list_as_inst. apply K1. rewrite handles_inst. apply incl_appl, incl_refl. apply repr_list_as_inst; auto. }
+  assert (K1G : forall u t, incl (handles u) G -> repr h u t -> repr h1 u t).
+  { intros u t Iu Hu. apply K1; auto. apply incl_appr; auto. }
+  assert (I1 : Inv h1 ((handles old ++ handles_list rs) ++ G)) by apply S1.
+  (* dropping the value read, when the right-hand side fails *)
+  assert (DROPOLD : forall hh rr ss, Inv hh ((handles old ++ handles_list rr) ++ G) -> repr_list hh rr ss ->
+            (forall u t, incl (handles u) G -> repr h u t -> repr hh u t) ->
+            Inv (drop_val hh old) (handles_list rr ++ G) /\ Sim (mkst (drop_val hh old) rr) ss /\
+            (forall u t, incl (handles u) G -> repr h u t -> repr (drop_val hh old) u t)).
+  { intros hh rr ss Ih Hh Kh. destruct (drop_val_keep hh old (handles_list rr) G Ih) as [S K].
+    split; [apply S|]. split.
+    - unfold Sim. simpl. apply repr_list_as_inst. apply K. rewrite handles_inst. apply incl_appl, incl_refl.
+      apply repr_list_as_inst; auto.
+    - intros u t Iu Hu. apply K. apply incl_appr; auto. apply Kh; auto. }
+  destruct (nth_error rs y) as [cy|] eqn:Ey.
+  2: { inversion E; subst. rewrite (repr_list_nth_none _ _ _ _ Hrs Ey). eexists; split; [reflexivity|].
+       simpl. apply DROPOLD; auto. }
+  destruct (repr_list_nth _ _ _ _ _ Hrs Ey) as [tcy [Htcy Hcy0]]. rewrite Htcy.
+  assert (Hcy : repr h1 cy tcy).
+  { destruct (repr_list_nth _ _ _ _ _ Hrs1 Ey) as [t2 [Ht2 Hv2]]. rewrite Htcy in Ht2. inversion Ht2; subst. auto. }
+  destruct (m_lop m h1 cy) as [[h2 cy'] r] eqn:EL.
+  assert (I1y : Inv h1 (handles cy ++ handles_list (set_root rs y HNull) ++ handles old ++ G)).
+  { eapply Inv_equiv; [|exact I1]. intro l. pose proof (roots_split y rs cy Ey l). revert H. occ_tac. }
+  pose proof (m_lop_mod_ok m HM h1 cy tcy _ h2 cy' r I1y Hcy EL) as [Hcy' Hres].
+  destruct (lop_apply m tcy) as [tcy' tr] eqn:EV. simpl in Hcy', Hres.
+  set (rs1 := set_root rs y cy') in *. set (sg1 := set_var sg y tcy') in *.
+  destruct r as [res|]; destruct tr as [tres|]; try contradiction.
+  2: { inversion E; subst; clear E. unfold rs1, sg1 in *.
+       assert (S' : Step h1 (handles cy) (handles_list (set_root rs y HNull) ++ handles old ++ G) h2 ([] ++ handles cy')) by exact Hres.
+       destruct (root_update_g h1 rs sg y cy h2 cy' tcy' _ [] (handles old ++ G) Ey Hrs1 S' Hcy') as [I2 [Hrs2 K2]].
+       eexists; split; [reflexivity|]. simpl. apply DROPOLD.
+       - eapply Inv_equiv; [|exact I2]. occ_tac.
+       - exact Hrs2.
+       - intros u t Iu Hu. apply K2. apply incl_appr; auto. apply K1G; auto. }
+  destruct Hres as [Hrres S2].
+  destruct (root_update_g h1 rs sg y cy h2 cy' tcy' _ (handles res) (handles old ++ G) Ey Hrs1 S2 Hcy') as [I2 [Hrs2 K2]].
+  fold rs1 in I2, Hrs2. fold sg1 in Hrs2.
+  assert (Hold2 : repr h2 old told) by (apply K2; auto; apply incl_appl, incl_refl).
+  assert (K2G : forall u t, incl (handles u) G -> repr h u t -> repr h2 u t).
+  { intros u t Iu Hu. apply K2. apply incl_appr; auto. apply K1G; auto. }
+  (* the operand: res, or [res] *)
+  assert (WRAP : exists h3 w tw, (if wrap then let '(hh, l) := alloc h2 KList [(nokey, res)] in (hh, HRef l None) else (h2, res)) = (h3, w) /\
+                 tw = (if wrap then VList [tres] else tres) /\ repr h3 w tw /\
+                 Inv h3 ((handles w ++ handles_list rs1) ++ handles old ++ G) /\
+                 (forall u t, repr h2 u t -> repr h3 u t)).
+  { destruct wrap.
+    - destruct (alloc h2 KList [(nokey, res)]) as [hh l] eqn:EA. exists hh, (HRef l None), (VList [tres]).
+      split; auto. split; auto.
+      assert (Ia : Inv h2 ((handles_items [(nokey, res)] ++ handles_list rs1) ++ handles old ++ G)).
+      { rewrite handles_items_single. exact I2. }
+      destruct (alloc_step' h2 (handles_list rs1) (handles old ++ G) KList [(nokey, res)] hh l EA Ia) as [Sa Ba].
+      split; [|split].
+      + unfold VList. simpl. eapply alloc_repr; eauto. constructor; auto. constructor.
+      + rewrite handles_ref. simpl. apply Sa.
+      + intros u t Hu. eapply repr_ext; eauto.
+    - exists h2, res, tres. split; auto. }
+  destruct WRAP as [h3 [w [tw [EW [Etw [Hw [I3 K3]]]]]]]. rewrite EW in E.
+  assert (Hrs3 : repr_list h3 rs1 sg1) by (apply repr_list_as_inst; apply K3; apply repr_list_as_inst; auto).
+  assert (Hold3 : repr h3 old told) by (apply K3; auto).
+  destruct (nth_error rs1 x) as [cur1|] eqn:Ex1.
+  2: { inversion E; subst; clear E. rewrite (repr_list_nth_none _ _ _ _ Hrs3 Ex1).
+       assert (I3' : Inv h3 ((handles old ++ handles w) ++ handles_list rs1 ++ G)) by (eapply Inv_equiv; [|exact I3]; occ_tac).
+       pose proof (drop2_ok h3 old w _ I3') as S4.
+       eexists; split; [reflexivity|]. simpl. split; [apply S4|]. split.
+       - unfold Sim. simpl. apply repr_list_as_inst. eapply (st_frame _ _ _ _ _ S4).
+         rewrite handles_inst. apply incl_appl, incl_refl. apply repr_list_as_inst. auto.
+       - intros u t Iu Hu. eapply (st_frame _ _ _ _ _ S4). apply incl_appr; auto. apply K3. apply K2G; auto. }
+  destruct (repr_list_nth _ _ _ _ _ Hrs3 Ex1) as [t1 [Ht1 Hcur1]]. rewrite Ht1.
+  destruct (m_opassign p f h3 cur1 old w) as [[h4 cur'] ok1] eqn:EO. inversion E; subst; clear E.
+  assert (I3x : Inv h3 ((handles cur1 ++ handles old ++ handles w) ++ handles_list (set_root rs1 x HNull) ++ G)).
+  { eapply Inv_equiv; [|exact I3]. intro l. pose proof (roots_split x rs1 cur1 Ex1 l). revert H. occ_tac. }
+  destruct (m_opassign_old_ok p f NS BF h3 cur1 t1 old told w _ _ h4 cur' ok I3x Hcur1 Hold3 Hw EO) as [t' [Ev [Hr' S4]]].
+  rewrite Ev. eexists; split; [reflexivity|].
+  assert (S4' : Step h3 (handles cur1 ++ handles old ++ handles w) (handles_list (set_root rs1 x HNull) ++ G) h4 ([] ++ handles cur')) by exact S4.
+  destruct (root_update_g h3 rs1 sg1 x cur1 h4 cur' t' _ [] G Ex1 Hrs3 S4' Hr') as [I4 [Hrs4 K4]].
+  simpl. split; [exact I4|]. split; [exact Hrs4|]. intros u t Iu Hu. apply K4; [exact Iu|]. apply K3. apply K2G; auto.
+Qed.
+Transparent alloc.
+
 (* ------------------------------------------------------------------ the proved fragment and the refinement theorem *)
 Definition sfrag (s : sstmt) : bool :=
   match s with
@@ -3328,7 +3454,7 @@ Definition sfrag (s : sstmt) : bool :=
   | SMod dst x m => is_modlop m && match dst with Some (_, q) => noslice q | None => true end
   | SSwap x p y q => noslice p && noslice q
   | SEvery x p e => efrag e
-  | SOpMod _ _ _ _ _ _ => false
+  | SOpMod x p f wrap y m => noslice p && bfrag f && is_modlop m
   end.
 
 Lemma m_exec_s_ok s : sfrag s = true -> forall st sg st' ok,
@@ -3365,6 +3491,11 @@ Proof.
   - (* swap x[p], y[q] *)
     apply andb_prop in FR. destruct FR as [NP NQ].
     eapply exec_swap_ok; eauto.
+  - (* x[p] f= [pop y[..]] *)
+    apply andb_prop in FR. destruct FR as [FR HM]. apply andb_prop in FR. destruct FR as [NS BF].
+    assert (I0 : Inv h (handles_list rs ++ [])) by (rewrite app_nil_r; auto).
+    destruct (exec_opmod_g x p f wrap y m NS BF HM h rs sg st' ok [] I0 Hs E) as [sg' [Ev [I1 [Hs1 _]]]].
+    exists sg'. split; auto. split; auto. unfold StInv. rewrite app_nil_r in I1. auto.
 Qed.
 
 Definition frag (s : stmt) : bool := match s with Simple s => sfrag s | SFor _ _ _ => false end.
